@@ -1545,7 +1545,12 @@ class ListNode(SyntaxNodeBase):
         """
         if isinstance(node, ShortcutNode):
             return True
-        return isinstance(node, ValueNode) and node.type in {int, float}
+        if not isinstance(node, ValueNode):
+            return False
+        # a node converted to an enumeration (LAT) is written as its number
+        return node.type in {int, float} or (
+            isinstance(node.type, type) and issubclass(node.type, enum.Enum)
+        )
 
     @staticmethod
     def _join_entries(front, text):
